@@ -159,6 +159,49 @@ Proof.
   - cbn [app]. rewrite classify_skip6 by lia. rewrite re_num_minus by assumption. reflexivity.
 Qed.
 
+Lemma int_strip z : strip_minus (int_bytes z) = dec_digits (Z.abs z).
+Proof.
+  unfold int_bytes. destruct (z <? 0) eqn:E.
+  - unfold strip_minus. change (45 =? 45) with true. cbv iota. f_equal. lia.
+  - destruct (dec_digits_spec z ltac:(lia)) as (_ & D & NE). replace (Z.abs z) with z by lia.
+    destruct (dec_digits z) as [|x t] eqn:ED; [congruence|]. unfold strip_minus.
+    cbn [forallb] in D. apply andb_true_iff in D as [D1 _]. destruct (digit_facts x D1) as (_ & N & _).
+    destruct (x =? 45) eqn:E5; [lia|reflexivity].
+Qed.
+
+Lemma int_read z : int_ok z = true -> leaf_of KNum (int_bytes z) = Ok (TInt z).
+Proof.
+  intros H. unfold leaf_of. rewrite int_strip, int_roundtrip. unfold int_ok in H.
+  destruct (MAX_STR_DIGITS <? length (dec_digits (Z.abs z)))%nat eqn:E; [|reflexivity].
+  apply Nat.ltb_lt in E. apply Nat.leb_le in H. lia.
+Qed.
+
+Lemma dval_cons x t : dval (x :: t) = (x - 48) * 10 ^ Z.of_nat (length t) + dval t.
+Proof. change (x :: t) with ([x] ++ t). rewrite dval_app. unfold dval at 1. cbn [fold_left]. lia. Qed.
+
+Lemma dval_lt l : forallb is_digit l = true -> 0 <= dval l < 10 ^ Z.of_nat (length l).
+Proof.
+  induction l as [|x t IH]; intros D; [cbn; lia|].
+  cbn [forallb] in D. apply andb_true_iff in D as [D1 D2]. specialize (IH D2).
+  rewrite dval_cons. cbn [length]. rewrite Nat2Z.inj_succ, Z.pow_succ_r by lia.
+  unfold is_digit in D1. assert (0 <= x - 48 <= 9) by lia. nia.
+Qed.
+
+(* a number of at least 10^k has more than k decimal digits *)
+Lemma digits_many n k : 10 ^ Z.of_nat k <= n -> (k < length (dec_digits n))%nat.
+Proof.
+  intros H. assert (0 <= n) by (pose proof (Z.pow_pos_nonneg 10 (Z.of_nat k)); lia).
+  destruct (dec_digits_spec n ltac:(lia)) as (V & D & _).
+  pose proof (dval_lt _ D) as B. rewrite V in B.
+  assert (L : 10 ^ Z.of_nat k < 10 ^ Z.of_nat (length (dec_digits n))) by lia.
+  apply Z.pow_lt_mono_r_iff in L; lia.
+Qed.
+
+Lemma int_ok_limit z : 10 ^ Z.of_nat MAX_STR_DIGITS <= Z.abs z -> int_ok z = false.
+Proof.
+  intros H. unfold int_ok. apply Nat.leb_gt. apply digits_many. exact H.
+Qed.
+
 Lemma int_clean z : clean (int_bytes z) = true.
 Proof.
   destruct (int_bytes_form z) as (s & d & -> & [->| ->] & NE & D & _).
@@ -430,7 +473,7 @@ Lemma leaf_read t : is_leaf t = true -> wf_leaf t = true -> leaf_of (leaf_kind t
 Proof.
   intros L W. destruct t as [d|l|p|z|f|b|n|b]; try discriminate; cbn [leaf_bytes leaf_kind wf_leaf] in *.
   - apply string_read. exact W.
-  - cbn [leaf_of]. rewrite int_roundtrip. reflexivity.
+  - apply int_read. exact W.
   - destruct f as [neg mag tiny]. cbn [fmag ftiny] in W. apply andb_true_iff in W as [W1 W2].
     destruct tiny; [discriminate|]. cbn [leaf_of]. rewrite float_roundtrip by lia. reflexivity.
   - destruct b; reflexivity.
